@@ -49,7 +49,8 @@ ASSUMPTIONS = [
     "semitones below, sorted",
     "slash chords, polychords and unknown numerals are outside the statement and are not judged",
     "'names with octave' includes the 'Name-octave' text form accepted by Note (C10) for additions only",
-    "removal forms are those the docstrings list: a name, a name with octave, a Note, a list of names and/or Notes",
+    "removal forms are those the docstrings list: a name, a name with octave, a Note, a list of names and/or Notes; removal by "
+    "Note removes the stored note equal to it, equality of notes being equality of pitch (C10), so an enharmonic Note removes it too",
 ]
 
 NAMES8 = ["C", "E", "G", "B", "D#", "Eb", "B#", "Cb"]
